@@ -384,6 +384,37 @@ def r_reclaim(prog, R):
         r.viol("rollback restores offset", rb.name, rb.loc(rb.ln), "ares_buf_tag_rollback no longer restores the read offset to the tag")
 
 
+def r_beforeref(prog, R):
+    r = R.rule("R-C19-BEFOREREF", "an insertion 'before a node' is always given a node: every ares_llist_insert_at / ares_llist_attach_at call in INSERT_BEFORE mode passes a reference that is "
+               "known to be non-NULL at the call (attach_at reads a missing reference as 'insert at the head', so insert-after-the-tail would put the value first)", floor=2,
+               analysis="must-facts (branch conditions dominating the call) over the reference argument, by expression identity")
+    n = 0
+    for f in sorted(prog.funcs.values(), key=lambda x: x.key):
+        if not f.file.startswith("src/lib/dsa/ares_llist"):
+            continue
+        mf = None
+        for b, i, c in f.calls():
+            if c.get("callee") not in ("ares_llist_insert_at", "ares_llist_attach_at") or len(c.get("args", [])) < 3:
+                continue
+            if name_of_const(c["args"][1]) != "ARES__LLIST_INSERT_BEFORE":
+                continue
+            n += 1
+            mf = mf or MustFacts(f)
+            ref = render(strip(c["args"][2]))
+            known = False
+            for cc, pp in mf.cond_facts_at(b, i):
+                op, l, rr = norm_cmp(cc, pp)
+                if l is not None and render(strip(l)) == ref and (op == "truth" or (op == "!=" and rr is not None and is_null(rr))):
+                    known = True
+            k = "fn=%s %s(.., INSERT_BEFORE, %s, ..) reference non-NULL" % (f.name, c["callee"], ref)
+            if known:
+                r.ok(k, f.loc(c["ln"]))
+            else:
+                r.viol(k, f.name, f.loc(c["ln"]), "%s may be NULL here (no dominating test): ares_llist_attach_at turns INSERT_BEFORE with a NULL reference into an insertion at the head, so the value "
+                       "ends up at the front of the list instead of at the requested position" % ref)
+    r.require(n >= 2, "INSERT_BEFORE call sites not found (%d)" % n)
+
+
 def r_links(prog, R):
     r = R.rule("R-C19-LINKS", "a node linked into the doubly linked list is linked from both neighbours in every insertion mode", floor=3, analysis="symmetric-store check per switch arm")
     f = prog.func("ares_llist_attach_at")
@@ -491,6 +522,7 @@ def run(prog, R, tier):
     r_reallocold(prog, R)
     r_reclaim(prog, R)
     r_links(prog, R)
+    r_beforeref(prog, R)
     r_arrayoff(prog, R)
     dsarules.r_arridx(prog, R)
     dsarules.r_hashidx(prog, R)
